@@ -70,6 +70,10 @@ def run(ctx):
     extra.append({"src": "set f to transform if match == 'a' then set x to true else set x to 'q' end return x - 1 end\nreplace all any with f",
                   "texts": ["a", "b"]})
     extra.append({"src": "set f to transform return 1 / 0 end\nreplace all 'a' with f", "texts": ["a"]})
+    # every amount clause on replace commands over texts with many matches: the list handed to the writer is in text order whatever window was asked for
+    for am in ["all"] + ["%s %d" % (k, n) for k in ("last", "top", "take", "skip") for n in (1, 2, 3, 4, 5)] + ["skip 2 take 3", "skip 1 take 1"]:
+        for body in ("'a'", "at least 1 'a'", "'a' or 'b'"):
+            extra.append({"src": "replace %s %s with 'b' value" % (am, body), "texts": ["aaaa", "aaaaaaa", "ababababab", "a", "", "aaaaa aaaa"]})
     # captures NAMED LIKE the names the run-time environments define: a capture is a string whatever it is called, the built-in keeps its own type; what the
     # checker accepted for the built-in must run when a capture of that name exists as well
     bnames = ["match", "matchLength", "matchNumber", "totalMatches", "value", "startOffset", "endOffset", "lineNumber", "columnNumber", "filename"]
